@@ -781,13 +781,27 @@ class ModuleVistor(NodeVisitor):
             annotation = unstring_annotation(ast.Constant(type_comment, lineno=lineno), self.builder.current)
 
         for target in node.targets:
-            if isinstance(target, ast.Tuple):
-                for elem in target.elts:
+            if isinstance(target, (ast.Tuple, ast.List)):
+                for elem in self._unpackingTargets(target):
                     # Note: We skip type and aliasing analysis for this case,
                     #       but we do record line numbers.
                     self._handleAssignment(elem, None, None, lineno)
             else:
                 self._handleAssignment(target, annotation, expr, lineno)
+
+    @classmethod
+    def _unpackingTargets(cls, target: ast.expr) -> Iterator[ast.expr]:
+        """
+        The names and attributes bound by an unpacking assignment: C{a, b = ...}, C{[a, b] = ...},
+        nested C{a, (b, c) = ...} and starred C{a, *b = ...} targets.
+        """
+        if isinstance(target, (ast.Tuple, ast.List)):
+            for elem in target.elts:
+                yield from cls._unpackingTargets(elem)
+        elif isinstance(target, ast.Starred):
+            yield from cls._unpackingTargets(target.value)
+        else:
+            yield target
 
     def visit_AnnAssign(self, node: ast.AnnAssign) -> None:
         annotation = unstring_annotation(node.annotation, self.builder.current)
